@@ -656,9 +656,9 @@ namespace cgi {
 				body_.resize(body_.size() + header_.padding_length);
 			
 			}
-			io::const_buffer packet =
-					io::buffer(&header_,sizeof(header_))
-					+ io::buffer(body_);
+			io::const_buffer packet = io::buffer(&header_,sizeof(header_));
+			if(!body_.empty())
+				packet += io::buffer(body_);
 			
 			header_.to_net();
 			socket_.async_write(packet,io_handler_to_event_handler(h));
